@@ -176,6 +176,11 @@ def focused_cases(changes, rng, limit=500000):
                     for u in U:
                         for a in pool[::3] + sp:
                             out.append(case(ev, None, f % ('(' + u % a + ')')))
+                        # two children of the same kind under one operator: F(U(a) op U(b))
+                        for o in [x for x in gen.BINOPS[ev] if x in ('+', '-', '*', '/')]:
+                            for a in sp[:7] + ['17', '0.1'][: (2 if ev != 'i64' else 1)]:
+                                for b in sp[:7] + ['27', '0.3'][: (2 if ev != 'i64' else 1)]:
+                                    out.append(case(ev, None, f % ('(' + (u % a) + o + (u % b) + ')')))
                     for pr in P:
                         for a in pool[::3] + sp:
                             out.append(case(ev, None, pr % ('(' + (f % wrap(a)) + ')')))
